@@ -234,7 +234,9 @@ MemAll == {"plain", "grow", "offset", "copy", "dirty", "attr", "revset"}
 MemFew == {"plain", "grow", "dirty"}
 MdAll == {"version", "timestamp", "changeset", "uid", "user"}
 RtOpt(f, m, h, l) == [fmt |-> f, md |-> m, hist |-> h, low |-> l]
-RtAll == {RtOpt(f, m, h, l) : f \in {"pbf", "xml", "opl"}, m \in {MdAll, {"version", "timestamp"}, {"uid", "user"}, {}}, h \in BOOLEAN, l \in BOOLEAN}
-RtFew == {RtOpt(f, m, h, TRUE) : f \in {"pbf", "xml", "opl"}, m \in {MdAll, {"version", "timestamp"}, {}}, h \in BOOLEAN}
+MdSets == {MdAll, {}, {"version", "uid"}, {"timestamp", "user"}}
+RtAll == {RtOpt(f, m, h, l) : f \in {"pbf", "xml", "opl"}, m \in MdSets \cup {{x} : x \in MdAll}, h \in BOOLEAN, l \in BOOLEAN}
+RtFew == {RtOpt(f, m, TRUE, TRUE) : f \in {"pbf", "xml", "opl"}, m \in MdSets}
+         \cup {RtOpt(f, m, FALSE, TRUE) : f \in {"pbf", "xml", "opl"}, m \in {MdAll, {"version", "uid"}}}
          \cup {RtOpt(f, MdAll, TRUE, FALSE) : f \in {"pbf", "xml", "opl"}}
 =============================================================================
